@@ -91,7 +91,8 @@ def maxInt64 : Int := 9223372036854775807
 /-- two's complement wrap of a mathematical integer into int64 -/
 def wrap64 (n : Int) : Int := (n + 9223372036854775808) % 18446744073709551616 - 9223372036854775808
 
-/-- `ToInt64` -/
+/-- `ToInt64` (REPAIRED: `coef <= MaxInt64/1000`, fixes/27-dnum-toint64-limit.patch; the current
+code has `<` and so refuses 9223372036854775000) -/
 def toInt64 (d : Dnum) : Option Int :=
   if d.sign = 0 then some 0
   else if d.sign ≠ signNegInf ∧ d.sign ≠ signPosInf then
@@ -100,7 +101,7 @@ def toInt64 (d : Dnum) : Option Int :=
     else if d.exp = 16 then some (wrap64 (d.sign * wrap64 d.coef))
     else if d.exp = 17 then some (wrap64 (d.sign * wrap64 (wrap64 d.coef * 10)))
     else if d.exp = 18 then some (wrap64 (d.sign * wrap64 (wrap64 d.coef * 100)))
-    else if d.exp = 19 ∧ d.coef < 9223372036854775 then some (wrap64 (d.sign * wrap64 (wrap64 d.coef * 1000)))
+    else if d.exp = 19 ∧ d.coef ≤ 9223372036854775 then some (wrap64 (d.sign * wrap64 (wrap64 d.coef * 1000)))
     else none
   else none
 
